@@ -159,11 +159,32 @@ def run(job: dict) -> dict:
         gc.disable()
     elif schedule == 'eager':
         gc.set_threshold(1, 1, 1)
+    if job.get('race'):
+        # interleaving: right after this action's first state read another process trains and commits a generation
+        import subprocess
+
+        from forml.provider.registry.filesystem import posix
+
+        original, fired = posix.Registry.read, []
+
+        def read(self, *args, **kwargs):
+            result = original(self, *args, **kwargs)
+            if not fired:
+                fired.append(True)
+                env = dict(os.environ)
+                proc = subprocess.run([sys.executable, '-m', 'vlib.lifecycle', job['race']], env=env, capture_output=True,
+                                      text=True, timeout=600, check=False)
+                fired.append(proc.returncode)
+            return result
+
+        posix.Registry.read = read
     adir = projgen.directory(job['registry'])
     instance = asset.Instance(job['project'], job['release'], job.get('generation'), adir)
     feed = SymFeed(job['nonce'])
     sinkfile = job['out'] + '.sink'
     result: dict = {'action': job['action'], 'error': None}
+    if job.get('race'):
+        result['race_fired'] = fired
     try:
         if job['action'] in ('train', 'apply', 'perftrack'):
             runner = daskrunner.Runner(instance, feed, SymSink(sinkfile), scheduler=job.get('scheduler', 'synchronous'))
